@@ -100,23 +100,20 @@ func (ct *CSVTable) emitRow(w io.Writer, columnCount int, cells []tabular.Cell) 
 	if columnCount < max {
 		return fmt.Errorf("structural bug, columnCount %d but %d cells", columnCount, max)
 	}
-	// Game-plan:
-	// 1. repeatedly print all-but-last available column with trailing separator
-	// 2. print last column, no separator
-	// 3. if too few columns in this row, repeatedly add leading separator and extra column
-	// if too many columns in this row, should have errored out above
-	// if only one column, the first repeated print should be skipped
-	for i = 0; i < max-1; i++ {
-		if _, err := fmt.Fprint(w, ct.csvEscape(cells[i].String()), ct.fieldSeparator); err != nil {
-			return err
+	// Game-plan: one field per column of the table; every field but the first
+	// is preceded by the separator; columns beyond the cells which this row
+	// has (which may be all of them, for a row without cells) are emitted as
+	// empty fields.
+	// If too many cells in this row, should have errored out above.
+	for i = 0; i < columnCount; i++ {
+		field := "\"\""
+		if i < max {
+			field = ct.csvEscape(cells[i].String())
 		}
-	}
-	if _, err := fmt.Fprint(w, ct.csvEscape(cells[i].String())); err != nil {
-		return err
-	}
-	i++
-	for ; i < columnCount; i++ {
-		if _, err := fmt.Fprint(w, ct.fieldSeparator, "\"\""); err != nil {
+		if i > 0 {
+			field = ct.fieldSeparator + field
+		}
+		if _, err := fmt.Fprint(w, field); err != nil {
 			return err
 		}
 	}
